@@ -2,6 +2,8 @@
 
 from __future__ import annotations
 
+import json
+
 import networkx as nx
 from hypothesis import strategies as st
 
@@ -351,6 +353,34 @@ def body(data) -> Outcome:
                     break
         except Exception as e:
             out.fail(exc_bucket(e, "history-open-block-raised"), exc_detail(e))
+
+    # ---- (f) inside ONE block: a request relying on a default, update_defaults, the same request again ------------------
+    dflt_roots = [r for r in roots_t if r in m.defaults]
+    if dflt_roots and (pick >> 13) % 2 and not isinstance(t, tuple):
+        r_d = dflt_roots[(pick >> 14) % len(dflt_roots)]
+        kw = {r: f"V{r}~f" for r in roots_t if r != r_d}
+        prog2 = json.loads(json.dumps(prog))
+        for fn_ in prog2["funcs"]:
+            if r_d in fn_["params"] and r_d not in fn_["bound"]:
+                fn_["pf_defaults"][r_d] = "Dnew"
+        units += 1
+        try:
+            want_old = m.evaluate(t, kw)[0]
+            want_new = DagModel(prog2).evaluate(t, kw)[0]
+            p = build_pipeline(prog, log, lazy=True, cache_type=None)
+            with construct_dag():
+                a = p(t, **kw)
+                p.update_defaults({r_d: "Dnew"})
+                b = p(t, **kw)
+            va, vb = a.evaluate(), b.evaluate()
+            out.labels.append("history:update_defaults-inside-a-block")
+            if vb != want_new:
+                out.fail("history-update_defaults-in-block-stale" if vb == want_old else "history-update_defaults-in-block-value",
+                         f"second request got {vb!r} want {want_new!r} (before the update: {want_old!r})")
+            elif va != want_old:
+                out.fail("history-update_defaults-in-block-first-request-value", f"got {va!r} want {want_old!r}")
+        except Exception as e:
+            out.fail(exc_bucket(e, "history-update_defaults-in-block-raised"), exc_detail(e))
 
     # ---- (e) a block whose body raises: afterwards no task graph is active and nothing of the block is reused --------
     if (pick >> 12) % 2 and not isinstance(t, tuple):
